@@ -64,8 +64,8 @@ class C18(PropBase):
                 "Validity sets are assumed to hold only names the context knows (a set holding an unknown name makes get_register panic: "
                 "see design/C18.md). No axioms.",
     }
-    assumptions = ["MinidumpContextValidity::Some(S) holds only names memoize_register accepts (sets built by the unwinders do; "
-                   "an arbitrary 'static str in S makes get_register(that name) reach unreachable!())",
+    assumptions = ["theorems: MinidumpContextValidity::Some(S) holds only names memoize_register accepts; the complement is the recorded "
+                   "known finding F-C18b (a set holding an unknown name makes the checked accessors reach unreachable!()), exercised on every run",
                    "HashSet iteration order is a parameter (CpuContext::valid_registers(Some) is compared as a sorted list)"]
 
     # ------------------------------------------------------------------ cases
@@ -111,6 +111,12 @@ class C18(PropBase):
                 cases.append("%s %s S:%s %d" % (variant, u, ",".join(t["registers"]), val()))
                 cases.append("%s %s S:%s %d" % (variant, u, rng.choice(names), val()))
                 dist["unknown_names"] += 4
+            # F-C18b class: validity sets holding names the context does not know
+            for u in UNKNOWN[1:6]:
+                cases.append("%s %s S:%s %d" % (variant, u, u, val()))
+                cases.append("%s %s S:%s,%s %d" % (variant, u, u, names[0], val()))
+                cases.append("%s %s S:%s %d" % (variant, names[0], u, val()))
+                cases.append("%s %s S:%s,%s %d" % (variant, names[-1], names[-1], u, val()))
             dist["by_type"][variant] = len(cases) - n0
         # de-duplicate S:a,a (a HashSet cannot hold a name twice)
         out = []
@@ -141,7 +147,7 @@ class C18(PropBase):
         if members and len(member_canon) != len(members):
             return "unparseable sm"
         if members and "N" in member_canon:
-            return None if False else self._unknown_member(who, d)
+            return self._unknown_member(who, vspec, d)
         accepted = d["st"] == "1"
         canon = d["mz"]
         # --- unknown names: absence, never a panic from the checked accessor
@@ -215,8 +221,12 @@ class C18(PropBase):
             return "%s: register_size %s does not match the Register type" % (variant, d["sz"])
         return None
 
-    def _unknown_member(self, who, d):
-        # validity sets holding unknown names are outside the stated domain (never generated)
+    def _unknown_member(self, who, vspec, d):
+        """F-C18b: a validity set holding a name the context does not know.  The checked accessors must still not panic."""
+        hit = [k for k in ("gr", "mg", "cv", "vn") if d[k] == "P"]
+        if hit:
+            return ("UNKNOWN-MEMBER: validity %s holds a name the context does not know and %s reached unreachable!() "
+                    "(get_register / MinidumpContext::get_register / CpuContext::valid_registers)" % (vspec, "+".join(hit)))
         return None
 
     def nontrivial(self, case, ans):
